@@ -240,13 +240,13 @@ def find_witness(prop, seed, budget):
         if b.returncode != 0:
             return None, "replay_rt does not build against the current tree: " + b.stderr[-600:]
         exe_rt = os.path.join(BUILD, "replay-rt-target", "debug", "zlink-replay-rt")
-        for mode in ("bulk", "atomic", "halves"):
+        for mode in ("bulk", "atomic", "halves", "hangup"):
             for rtm in ("tokio", "smol"):
                 p = subprocess.run([exe_rt, mode, rtm], capture_output=True, text=True, timeout=600)
                 if p.returncode == 1:
                     return {"kind": "rt_bulk", "mode": mode, "runtime": rtm, "output": p.stdout[-1500:]}, ""
         if kind == ["rt_bulk"]:
-            return None, ("the bulk transfer, the abandoned sends of frames below the atomic-write size and the dropped-write-half scenario over real socket pairs "
+            return None, ("the bulk transfer, the abandoned sends of frames below the atomic-write size, the dropped-write-half and the hang-up-after-send scenarios over real socket pairs "
                           "arrived intact under both runtimes")
         kind = [k for k in kind if k != "rt_bulk"]     # ... and go on with the in-memory harnesses of the connection layer
     exe, err = replay_bin()
